@@ -111,6 +111,34 @@ def only_F23(c, want):
         tk.Circuit.add_bit = saved
 
 
+def _is_classical_gate(box):
+    return isinstance(box, ClassicalGate) and not isinstance(box, Bits) or isinstance(box, Bits) and box.is_dagger
+
+
+def override_after_classical_gate(c):
+    """a Measure(override_bits=True) comes after a classical gate was recorded: the live bit it overrides is by then an
+    output of post_processing, not a register bit (known finding F30)"""
+    seen = False
+    for box in c.boxes:
+        if _is_classical_gate(box):
+            seen = True
+        elif seen and isinstance(box, Measure) and box.override_bits:
+            return True
+    return False
+
+
+def bits_after_arity_change(c):
+    """a Bits preparation or an overriding Measure comes after a classical gate with a different number of inputs and
+    outputs: to_tk's list of live register bits is not updated by classical gates (known finding F31)"""
+    seen = False
+    for box in c.boxes:
+        if _is_classical_gate(box) and len(box.dom) != len(box.cod):
+            seen = True
+        elif seen and (isinstance(box, Bits) and not box.is_dagger or isinstance(box, Measure) and box.override_bits):
+            return True
+    return False
+
+
 def check(rep, c):
     r = repr(c)
     rep.case(r, nontrivial=len(c) > 0)
@@ -121,7 +149,9 @@ def check(rep, c):
         rep.count('not_exportable')
         return
     except Exception as e:
-        rep.fail('C13:to_tk.raises', 'to_tk raised %s: %s' % (type(e).__name__, e), r)
+        key = 'C13:to_tk.raises.bits_after_arity_change' if isinstance(e, IndexError) and bits_after_arity_change(c) \
+            else 'C13:to_tk.raises'
+        rep.fail(key, 'to_tk raised %s: %s' % (type(e).__name__, e), r)
         return
     rep.count('exported')
     discards_bit = any(isinstance(b, Discard) and b.dom.count(bit) for b in c.boxes) \
@@ -144,6 +174,8 @@ def check(rep, c):
         # known finding F23: attributed only when the circuit prepares Bits left of a live bit AND the disagreement
         # disappears with add_bit alone repaired; anything else is reported under the generic key
         key = 'C13:export.bits_left_of_live_bit' if bits_left_of_live_bit(c) and only_F23(c, want) \
+            else 'C13:export.bits_after_arity_change' if bits_after_arity_change(c) \
+            else 'C13:export.override_after_classical_gate' if override_after_classical_gate(c) \
             else 'C13:export.distribution'
         rep.fail(key, 'distribution of the exported tket circuit differs from local evaluation: '
                  '%s vs %s' % (numpy.round(got.flatten(), 4)[:8], numpy.round(want.flatten(), 4)[:8]), r)
@@ -152,9 +184,13 @@ def check(rep, c):
     counts = c.get_counts(ExactBackend(), normalize=False)
     probs = want.real.reshape((2,) * len(want.shape)) if want.shape != (1,) else want.real
     pp = len(tkc.post_processing) > 0
+    n_out = len(want.shape) if want.shape != (1,) else 0
     for bits, p in counts.items():
-        ref = probs[bits] if bits else probs.flatten()[0]
-        if abs(ref - p) > 1e-9:
+        if len(bits) != n_out:
+            ref = None          # a key of the wrong length: not a count of the circuit's output bits at all
+        else:
+            ref = probs[bits] if bits else probs.flatten()[0]
+        if ref is None or abs(ref - p) > 1e-9:
             # known finding F22: Circuit.get_counts(backend) returns tket's counts without the classical post-processing
             key = 'C13:get_counts.backend.post_processing_ignored' if pp and _without_pp_matches(tkc, counts) \
                 else 'C13:get_counts.backend'
@@ -167,7 +203,9 @@ def check(rep, c):
         if again.size != want.size or not numpy.allclose(again.reshape(want.shape), want, atol=1e-9):
             rep.fail('C13:roundtrip', 'from_tk(to_tk(c)) evaluates differently', r)
     except NotImplementedError:
-        rep.count('not_importable')
+        # the statement: "importing the exported circuit back yields a circuit with the same mixed evaluation"
+        rep.fail('C13:roundtrip.refused', 'from_tk refuses (NotImplementedError) the circuit to_tk exported: %s'
+                 % [str(cmd) for cmd in tkc.get_commands()][:6], r)
     except Exception as e:
         rep.fail('C13:from_tk.raises', 'from_tk(to_tk(c)) raised %s: %s' % (type(e).__name__, e), r)
 
@@ -184,8 +222,9 @@ def _without_pp_matches(tkc, counts):
 
 
 def tket_circuits(depth):
-    ops1 = [('H', ()), ('X', ()), ('Y', ()), ('Z', ()), ('S', ()), ('T', ()), ('Rx', (0.4,)), ('Rz', (1.3,))]
-    ops2 = [('CX', ()), ('CZ', ()), ('SWAP', ()), ('CRz', (0.7,))]
+    ops1 = [('H', ()), ('X', ()), ('Y', ()), ('Z', ()), ('S', ()), ('T', ()), ('Sdg', ()), ('Tdg', ()),
+            ('Rx', (0.4,)), ('Rz', (1.3,))]
+    ops2 = [('CX', ()), ('CZ', ()), ('SWAP', ()), ('CRz', (0.7,)), ('CY', ()), ('CH', ()), ('CS', ()), ('CSdg', ())]
     for n in (1, 2, 3):
         cmds = [(name, p, (q,)) for name, p in ops1 for q in range(n)]
         cmds += [(name, p, (a, b)) for name, p in ops2 for a in range(n) for b in range(n) if a != b]
@@ -200,7 +239,9 @@ def tket_circuits(depth):
             yield combo, c
 
 
-SUPPORTED_TKET_OPS = {'H', 'X', 'Y', 'Z', 'S', 'T', 'Rx', 'Rz', 'CX', 'CZ', 'SWAP', 'CRz', 'Measure'}
+# what to_tk itself emits: an operation the exporter produces is an operation the importer supports
+SUPPORTED_TKET_OPS = {'H', 'X', 'Y', 'Z', 'S', 'T', 'Sdg', 'Tdg', 'Rx', 'Rz', 'CX', 'CZ', 'SWAP', 'CRz', 'CY', 'CH',
+                      'CS', 'CSdg', 'Measure'}
 
 
 def check_import(rep, combo, tkc):
@@ -233,13 +274,15 @@ def run(tier, seed=0, shard=(0, 1)):
     rep = Report({'export': 'circuits of depth <= %d (quick: all of depth 1, a quarter of depth 2) from the domains qubit, qubit@qubit, Ty(), bit over H X Y S T Rx(.3) '
                             'Rz(.77) CX CZ SWAP CRz(.3) Measure (destructive or not) Discard Bra(0/1) Ket(0/1) Bits(0) NOT '
                             'bit swaps scalar(.5), width <= 3' % depth,
-                  'import': 'all pytket circuits with <= %d commands over H X Y Z S T Rx Rz CX CZ SWAP CRz Measure on 1-3 '
+                  'import': 'all pytket circuits with <= %d commands over H X Y Z S T Sdg Tdg Rx Rz CX CZ SWAP CRz CY CH CS CSdg Measure on 1-3 '
                             'qubits (sampled 1/5 in the quick tier)' % depth,
                   'classical': '3 measured qubits (6 ways of measuring, incl. Measure(3)) then <= 2 classical steps among bit '
                                'swaps, NOT on one bit, Bits(0) at every offset (quick: a third of the 2-step sequences); '
                                'mixed and pure scalars at both ends',
                   'angles': 'Rx / Rz / CRz with 9 tket angles in [-3.3, 4.25] half-turns imported, 5 discopy phases in [-1.65, 1.85] '
                             'exported and re-imported, the control in superposition before and after',
+                  'controlled': 'Controlled(g), its dagger and double dagger for g in X Y Z H S T S† T†, control and target in superposition, three read-outs',
+                  'late': '12 circuits with NOT / Copy / XOR / Match recorded before an overriding Measure, a fresh Bits(0) or nothing',
                   'simulator': 'rtc/tksim.py exact branching state-vector simulation'})
     idx = 0
     for dom in (qubit, qubit @ qubit, circuit.Ty(), bit):
@@ -306,6 +349,42 @@ def run(tier, seed=0, shard=(0, 1)):
             if c is None or idx % shard[1] != shard[0]:
                 continue
             check(rep, c)
+    # controlled named gates and their daggers, control and target in superposition, interfered afterwards so that the
+    # phase of the controlled gate shows in the distribution (CS and its dagger differ)
+    for inner in (gates.X, gates.Y, gates.Z, gates.H, gates.S, gates.T, gates.S.dagger(), gates.T.dagger()):
+        for mk in (lambda g: Controlled(g), lambda g: Controlled(g).dagger(), lambda g: Controlled(g).dagger().dagger()):
+            try:
+                cg = mk(inner)
+            except NotImplementedError:
+                continue
+            for post in (Measure() @ Measure(), gates.H @ gates.H >> Measure() @ Measure(),
+                         Rx(0.4) @ gates.H >> Measure() @ Discard()):
+                idx += 1
+                if idx % shard[1] != shard[0]:
+                    continue
+                check(rep, Ket(0, 0) >> gates.H @ Rx(0.3) >> gates.S @ Id(1) >> cg >> post)
+    # classical gates first, then an overriding measure or a fresh bit: the live bits are outputs of the recorded
+    # post-processing by then (F30), and gates with different numbers of inputs and outputs change how many there are (F31)
+    XOR = ClassicalGate('XOR', 2, 1, [1, 0, 0, 1, 0, 1, 1, 0])
+    OVER = Measure(1, override_bits=True)
+    late = [Ket(1) >> Measure() >> NOT >> Ket(1) @ Id(bit) >> OVER,
+            Ket(0) >> Rx(0.3) >> Measure() >> NOT >> Ket(0) @ Id(bit) >> Rx(0.2) @ Id(bit) >> OVER,
+            Ket(1) >> Measure() >> gates.Copy() >> Ket(0) @ Id(bit ** 2) >> Id(qubit) @ circuit.Swap(bit, bit) >> OVER @ Id(bit),
+            Ket(0) >> Measure() >> gates.Copy() >> Id(bit @ bit) @ Bits(0),
+            Ket(1) >> Measure() >> gates.Copy() >> Id(bit) @ Ket(0) @ Id(bit) >> Id(bit) @ OVER,
+            Ket(1, 1) >> Measure(2) >> XOR >> Id(bit) @ Bits(0),
+            Ket(0, 0) >> Rx(0.3) @ Rx(0.7) >> Measure(2) >> XOR >> Id(bit) @ Bits(0),
+            # the same gates with nothing prepared or overridden afterwards: these must agree
+            Ket(0, 0) >> Rx(0.3) @ Rx(0.7) >> Measure(2) >> XOR,
+            Ket(0) >> Rx(0.3) >> Measure() >> gates.Copy() >> NOT @ Id(bit),
+            Ket(0, 0) >> Rx(0.3) @ Rx(0.7) >> Measure() @ Id(1) >> gates.Copy() @ Id(1) >> Id(bit ** 2) @ Measure(),
+            Ket(0, 0) >> Rx(0.3) @ Rx(0.7) >> Measure() @ Id(1) >> circuit.Swap(bit, qubit) >> OVER,
+            Ket(0, 0) >> Rx(0.3) @ Rx(0.7) >> Measure() @ Measure() >> gates.Match()]
+    for c in late:
+        idx += 1
+        if idx % shard[1] != shard[0]:
+            continue
+        check(rep, c)
     # post-selection next to measured bits, then bit swaps: the post-selected register must keep its value
     pre = Ket(0, 0, 0) >> gates.X @ gates.H @ Rx(0.3) >> gates.CX @ Id(1)
     for sel in (Bra(1) @ Measure(2), Measure() @ Bra(0) @ Measure(), Measure(2) @ Bra(0)):
